@@ -496,6 +496,18 @@ func genC10(p *Plan, tier string) {
 	r := NewRand(Mix(p.Seed, "c10"))
 	g := &Gen{R: NewRand(Mix(p.Seed, "gen")), O: SwarmOpts(NewRand(Mix(p.Seed, "profile")))}
 	g.O.CoinFlips = r.Bool(0.5)
+	// interference needs two requests inside the same component: often restrict the run to one
+	// method and / or one or two bias kinds
+	if r.Bool(0.5) {
+		g.O.Methods = []string{AllMethods[r.Intn(len(AllMethods))]}
+	}
+	if r.Bool(0.35) {
+		g.O.Biases = []string{AllBiases[r.Intn(len(AllBiases))], AllBiases[r.Intn(len(AllBiases))]}
+		g.O.MinBiases = 1
+		if g.O.MaxBiases < 2 {
+			g.O.MaxBiases = 2
+		}
+	}
 	// one map order for the whole run (decisions are counted per request): a concurrent response
 	// that differs from the solo one is then a matter of interference, not of iteration order
 	order := randMapOrder(r)
